@@ -9,7 +9,7 @@ RULE = ("sessions = handler programs (enqueue / raise / exit / force_quit / nest
         "non-trivial per property: see harness/loop_check.py nontrivial()")
 
 MANIFEST = dict(
-    text='Proof: the acceptor ok_C09 (after force-quit no handler, enqueue, dispatch or nested loop; while an exit is in flight only unwinding, then the quit callback exactly once with the registered argument, then run() returns; run() returns only after an exit / close of the last level / force-quit) holds for every session of the model (C09_stops); C09_force_quit_discards, C09_failing_handler_does_not_stop, C09_empty_queue_blocks_not_stops.',
+    text='Proof: the acceptor ok_C09 (after force-quit no handler, enqueue, dispatch or nested loop; while an exit is in flight only unwinding, then the quit callback exactly once with the registered argument, then run() returns; run() returns ONLY after an exit / the close of its level / force-quit) holds for every session of the model — every handler program, fuel and list of top-level calls (C09_stops; the last clause by a potential argument: #levels + [stop flag raised] never grows across a call that ends normally or with an ordinary exception and drops across a main loop that returns: C09_mainloop_returns_only_when_told, C09_call_potential); C09_force_quit_discards, C09_force_quit_no_new_loop, C09_force_quit_no_handler, C09_failing_handler_does_not_stop, C09_failing_handler_continues, C09_empty_queue_blocks_not_stops. Screen level (props/C09s.v): App.run() refuses an empty stack unless configured (C09s_run_refuses_empty), closing the last screen / processing an empty stack raises ExitMainLoop (C09s_last_screen_closes_exits, C09s_process_screen_empty_exits, C09s_process_input_result_empty_exits) and an ExitMainLoop raised at any modal depth reaches run() without another handler starting (C09s_exit_through_*, C09s_exit_reaches_run).',
     note="Trusted: Coq kernel, extraction, harness (loop_impl.py records the implementation's events through subclasses/wrappers of public methods and a logging PriorityQueue). " + 'the screen-level clauses (last screen closes, run() refuses an empty stack) are checked with the screen layer; a handler that catches ExitMainLoop is outside the model.',
     technique="Coq theorem: a trace acceptor holds for every session of a fuel-indexed interpreter model of MainLoop; the same extracted acceptor judges traces of the real MainLoop; differential correspondence model<->/repo")
 
